@@ -180,11 +180,78 @@ pub fn error_variant(e: &wgsl_to_wgpu::CreateModuleError) -> String {
     }
 }
 
+/// History leg: when on, every formatter-off call made through `generate_with` is preceded, on the same thread, by one
+/// other call (chosen by the hash of the source from `PRIOR_CALLS`: calls that panic at different depths, calls that
+/// return each error, calls that succeed on wide modules). The checked call's expected result never depends on it:
+/// every property quantifies over single calls whatever happened before on the thread.
+pub static HISTORY_LEG: std::sync::atomic::AtomicBool = std::sync::atomic::AtomicBool::new(false);
+pub static PRIOR_CALLS_MADE: std::sync::atomic::AtomicU64 = std::sync::atomic::AtomicU64::new(0);
+
+/// (name, source, validate) of the calls used as history.
+pub fn prior_calls() -> Vec<(&'static str, String, bool)> {
+    let mut v = vec![];
+    // panics late (struct emission) after every earlier stage of generation ran on a wide module
+    let mut s = String::from("struct P0 { a: vec3<f32>, b: f32 };\n");
+    for i in 1..12 {
+        s.push_str(&format!("struct P{i} {{ inner: P{}, pad: vec2<u32>, arr: array<P{}, 2> }};\n", i - 1, i - 1));
+    }
+    s.push_str("struct PLocal { q: f32 };\nstruct POut { @builtin(position) p: vec4<f32>, @location(0) c: vec4<f32> };\nstruct PIn { @location(0) a: vec4<f32>, @location(1) b: vec2<f32> };\n");
+    s.push_str("struct PRoot { head: P11, items: array<P11> };\n@group(0) @binding(0) var<storage, read> p_root: PRoot;\n@group(0) @binding(1) var<uniform> p_u: P3;\n@group(1) @binding(0) var p_tex: texture_2d<f32>;\n@group(1) @binding(1) var p_samp: sampler;\nvar<push_constant> p_pc: P1;\noverride p_scale: f32 = 1.0;\noverride p_count: u32;\n");
+    s.push_str("fn p_helper() -> f32 { var l: PLocal; return l.q + p_pc.pad.x + p_u.pad.y; }\n@vertex fn p_vs(i: PIn) -> POut { var o: POut; o.p = i.a * p_root.head.pad.x * p_scale; return o; }\n@fragment fn p_fs(i: POut) -> @location(0) vec4<f32> { return textureSample(p_tex, p_samp, i.c.xy) * p_helper() * f32(p_count); }\n@compute @workgroup_size(4, 2, 1) fn p_cs() { _ = p_root.items[0].pad.x; }\n");
+    v.push(("panic-runtime-array-without-encase", s.replace("pad: vec2<u32>", "pad: vec2<f32>"), false));
+    // the two errors of bind group collection, on modules that declare many (group, binding) pairs
+    let mut d = String::new();
+    let mut n = String::new();
+    for g in 0..4 {
+        for b in 0..4 {
+            d.push_str(&format!("@group({g}) @binding({b}) var<uniform> d_{g}_{b}: vec4<f32>;\n"));
+            if g != 1 {
+                n.push_str(&format!("@group({g}) @binding({b}) var<uniform> n_{g}_{b}: vec4<f32>;\n"));
+            }
+        }
+    }
+    d.push_str("@group(3) @binding(3) var<uniform> d_again: vec4<f32>;\n@compute @workgroup_size(1) fn d_cs() { _ = d_0_0.x + d_again.x; }\n");
+    n.push_str("@compute @workgroup_size(1) fn n_cs() { _ = n_0_0.x; }\n");
+    v.push(("err-duplicate-binding", d, false));
+    v.push(("err-non-consecutive-groups", n, false));
+    v.push(("err-parse", "struct Half { a: f32,\n@compute fn {".to_string(), false));
+    v.push(("err-validation", "struct VE { a: f32 };\n@group(0) @binding(0) var<uniform> ve: VE;\nfn ve_f() -> f32 { return ve; }\n@compute @workgroup_size(1) fn ve_cs() { _ = ve_f(); }\n".to_string(), true));
+    v.push(("panic-binding-array", "@group(0) @binding(0) var<uniform> ba_first: vec4<f32>;\n@group(0) @binding(1) var ba_arr: binding_array<texture_2d<f32>, 2>;\n@compute @workgroup_size(1) fn ba_cs() { _ = ba_first.x; }\n".to_string(), false));
+    v.push(("panic-int64-member", "struct W0 { a: f32 };\nstruct W1 { w: W0, wide: vec2<i64> };\n@group(0) @binding(0) var<storage, read> w1: W1;\n@compute @workgroup_size(1) fn w_cs() { _ = w1.w.a; }\n".to_string(), false));
+    // calls that succeed on wide modules
+    v.push(("ok-kitchen-vertex-fragment", crate::c01::KITCHEN_VF.to_string(), false));
+    v.push(("ok-wide-compute", {
+        let mut s = String::new();
+        for i in 0..10 {
+            s.push_str(&format!("struct K{i} {{ a: vec4<f32>, n: atomic<u32>, t: array<vec2<f32>, 3> }};\n@group({}) @binding({}) var<storage, read_write> k{i}: K{i};\noverride k_ov{i}: f32 = {i}.5;\nconst K_C{i}: u32 = {i}u;\n", i / 4, i % 4));
+        }
+        s.push_str("var<workgroup> k_wg: array<K0, 2>;\nvar<private> k_priv: K1;\nvar<push_constant> k_pc: vec4<u32>;\nfn k_a() -> f32 { return k0.a.x + k_ov0; }\nfn k_b() -> f32 { return k_a() + k5.a.y + f32(k_pc.x); }\n@compute @workgroup_size(8, 1, 1) fn k_one() { _ = k_b(); _ = k_priv.a; }\n@compute @workgroup_size(1, 2, 3) fn k_two() { _ = k9.a.x + k_ov9; _ = k_wg[0].a; }\n");
+        s
+    }, false));
+    v.push(("ok-fragment-only-overrides", "override f_a: f32;\noverride f_b: bool = true;\n@id(7) override f_c: i32 = -2;\nstruct FOut { @location(0) a: vec4<f32>, @location(2) b: vec4<f32> };\n@fragment fn f_main() -> FOut { var o: FOut; if f_b { o.a = vec4<f32>(f_a * f32(f_c)); } return o; }\n".to_string(), false));
+    v
+}
+
+fn prior_call(h: u64) {
+    static CALLS: std::sync::OnceLock<Vec<(&'static str, String, bool)>> = std::sync::OnceLock::new();
+    let calls = CALLS.get_or_init(prior_calls);
+    let (_, src, validate) = &calls[(h % calls.len() as u64) as usize];
+    let mut options = WriteOptions::default();
+    if *validate {
+        options.validate = Some(ValidationOptions { capabilities: WgslCapabilities::all() });
+    }
+    let _ = generate_with_unguarded(src, None, options);
+    PRIOR_CALLS_MADE.fetch_add(1, std::sync::atomic::Ordering::Relaxed);
+}
+
 /// Calls that start the external formatter run under a watchdog: a call that does not come back within 60 s is
 /// reported as `Panic("VERIF watchdog: ...")` (the worker thread is abandoned), so that a tree on which formatting
 /// can block makes the checks fail instead of hang.
 pub fn generate_with(src: &str, include: Option<&str>, options: WriteOptions) -> Outcome {
     if !options.rustfmt {
+        if HISTORY_LEG.load(std::sync::atomic::Ordering::Relaxed) {
+            prior_call(hash64(src));
+        }
         return generate_with_unguarded(src, include, options);
     }
     let (tx, rx) = std::sync::mpsc::channel();
@@ -353,6 +420,11 @@ pub fn hash64(s: &str) -> u64 {
 
 impl Report {
     pub fn new(property: &str, tier: &str) -> Report {
+        // single-call properties: every formatter-off call is made on a thread with a history (see HISTORY_LEG).
+        // C16/C18/C19 drive histories themselves, C20 counts hook points per call.
+        if !matches!(property, "C16" | "C18" | "C19" | "C20") {
+            HISTORY_LEG.store(true, std::sync::atomic::Ordering::Relaxed);
+        }
         Report {
             property: property.to_string(),
             tier: tier.to_string(),
@@ -476,6 +548,10 @@ impl Report {
         coverage.insert("states".into(), json!(self.states.max(1)));
         coverage.insert("transitions".into(), json!(self.transitions.max(1)));
         coverage.insert("traces_validated_against_impl".into(), json!(self.traces_validated));
+        let prior = PRIOR_CALLS_MADE.load(std::sync::atomic::Ordering::Relaxed);
+        if prior > 0 {
+            coverage.insert("calls_preceded_by_another_call_on_the_thread".into(), json!(prior));
+        }
         coverage.insert("evaluations".into(), json!(self.evaluations.max(1)));
         coverage.insert("distinct_nontrivial".into(), json!(self.nontrivial.len()));
         coverage.insert("distinct_outcomes".into(), json!(self.outcomes.len()));
